@@ -200,6 +200,23 @@ theorem order_preserved (c : Ctx) (v : GeneView) (gid : Int) (hc : regionOK c = 
   · rw [ho] at hab
     simp at hab
 
+/-- the three gene statements with the hypothesis on the *locations*: for genes of one or two
+    exons (incl. forward and reverse genes running over the origin) well-formedness of the
+    location inside the region is all that is needed — `Feature.start/end`, `crosses_origin` and
+    `is_contained_by(region.location.parts[-1])` are computed by the model from the location -/
+theorem genes_drawn_from_locations (c : Ctx) (genes : List Loc) (hc : regionOK c = true)
+    (hg : ∀ g ∈ genes, geneOK c g = true) :
+    orfsInRange c (convertCds c (genes.map (geneView c))) = true ∧
+    orfsCompleteB c.L (genes.map (geneView c)) (convertCds c (genes.map (geneView c))) = true ∧
+    ∀ g ∈ genes, ∀ gid o, convertOne c (geneView c g) gid = [o] → orfPlaced c (geneView c g) o = true := by
+  have hv : ∀ v ∈ genes.map (geneView c), viewOK c v = true := by
+    intro v hv
+    simp only [List.mem_map] at hv
+    obtain ⟨g, hgm, rfl⟩ := hv
+    exact geneView_ok hc (hg g hgm)
+  exact ⟨genes_in_range c _ hc hv, genes_exactly_once c _ hc hv,
+    fun g hgm gid o ho => order_preserved c _ gid hc (geneView_ok hc (hg g hgm)) o ho⟩
+
 /-! ### non-vacuity: the hypotheses hold on concrete layouts that reach every branch -/
 
 private def sl (a b : Int) : Loc := .simple ⟨a, b, .fwd⟩
@@ -275,5 +292,14 @@ example : ((buildRegion exTwinsCtx [] exTwins).map
       (·.map fun a => (a.kind, a.start, a.end, a.height))) =
     some [(.cand, 500, 2200, 0), (.cand, 500, 1500, 2),
           (.proto, 800, 1200, 4), (.proto, 900, 1100, 6), (.proto, 1600, 1900, 8)] := by decide
+
+/-- genes as locations: forward and reverse genes over the origin, a two-exon reverse gene -/
+def exGeneLocs : List Loc :=
+  [.simple ⟨960, 980, .rev⟩, .compound [⟨990, 1000, .fwd⟩, ⟨0, 12, .fwd⟩],
+   .compound [⟨0, 7, .rev⟩, ⟨985, 1000, .rev⟩], .compound [⟨30, 40, .rev⟩, ⟨10, 20, .rev⟩]]
+example : exGeneLocs.all (geneOK exCross) = true ∧ exGeneLocs.all (geneOK exWhole) = true := by decide
+example : exGeneLocs.map (geneView exCross) =
+    [⟨960, 980, false, false, -1⟩, ⟨990, 12, true, false, 1⟩, ⟨985, 7, true, false, -1⟩,
+     ⟨10, 40, false, true, -1⟩] := by decide
 
 end ASV.C19
